@@ -101,15 +101,15 @@ def cases(rng, tier):
                 d = rng.choice([1, 5, 20])
                 c["inners"] = T.gen_inners(rng, d)
                 c["raise_at"] = rng.choice([None, None, None, None, 0, 1, 2])
-                c["first"] = rng.choice([None, T.gen_inner(rng, d), T.gen_inner(rng, d), [[d, ["N", 0]]]])
-                marks = [SUB + c["first"][0][0]] if c["first"] else []
+                c["first"] = rng.choice([None, T.gen_inner(rng, d), T.gen_inner(rng, d), [[d, ["N", 0]]], {"timer": d}, {"timer": rng.choice([0, 1, d + 1])}])
+                marks = [SUB + T.inner_timeline(c["first"])[0][0]] if c["first"] else []
                 msgs = T.gen_msgs(rng, d, marks)
                 if rng.random() < 0.5:
                     c["other"] = None
                 else:
                     # (a hot fallback subscribed from inside the source's own action may still get its message of that very
                     # instant: keep the fallback cold when a timer observable can fire inline)
-                    osrc = "cold" if any(isinstance(x, dict) for x in c["inners"]) else rng.choice(["hot", "cold"])
+                    osrc = "cold" if any(T.is_inline(x) for x in c["inners"]) else rng.choice(["hot", "cold"])
                     om = T.gen_msgs(rng, d, marks + [t + d for t, _ in msgs[:3]], nmax=3, malformed=0.05)
                     c["other"] = {"src": osrc, "msgs": T.to_cold(om) if osrc == "cold" else om}
             else:  # timeout
@@ -168,7 +168,7 @@ def impl(case):
         import reactivex
 
         def build(s, xs, other):
-            first = s.create_cold_observable(T.recorded(case["first"])) if case["first"] else (reactivex.never() if case["first"] is not None else None)
+            first = T.mapper_observable(s, case["first"]) if case["first"] is not None else None
             return xs.pipe(ops.timeout_with_mapper(first, T.make_mapper(s, case, off=1), other))
 
         return T.run_test(case, build, sources=("msgs", "other"))
@@ -261,7 +261,7 @@ def expected(case):
     if op == "timeout_with_mapper":
         # the timer observable of the latest element (first_timeout before any element) decides: its first signal switches to the
         # fallback (its error is forwarded); never after the source terminated
-        first = [[SUB + r, ("inner", 0, m)] for r, m in T.conform(case["first"] or [])]
+        first = [[SUB + r, ("inner", 0, m)] for r, m in T.inner_timeline(case["first"] or [])]
         srcs = T.src_stream(src, case["inners"], off=1)
         streams = ([first, srcs] if case["src"] == "cold" else [srcs, first]) + T.elem_streams(src, case["inners"], off=1)
         out, cur, k = [], 0, 0
@@ -288,6 +288,8 @@ def expected(case):
 def oracle(case, io):
     if "raised" in io:
         return f"operator raised {io['raised']}"
+    if T.leak_oracle(case, io):
+        return T.leak_oracle(case, io)
     exp = expected(case)
     if fw.key(exp) != fw.key(io["out"]):
         return f"{case['op']}: expected {exp} got {io['out']}"
@@ -311,7 +313,7 @@ def bucket(case, io):
             tt = s[-1][0]
             yield f"tlwt:exactly-d-old={any(tt - t == case['d'] for t, n in s[:-1])}:arrival-at-completion={any(t == tt for t, n in s[:-1])}"
     if case["op"] == "timeout_with_mapper":
-        yield f"towm:raise_at={case['raise_at']}:first={'none' if not case['first'] else case['first'][0][1][0]}"
+        yield f"towm:raise_at={case['raise_at']}:first={'none' if not case['first'] else 'timer' if isinstance(case['first'], dict) else case['first'][0][1][0]}"
     if case["op"] == "timeout" and "out" in io:
         yield f"timeout:other={'none' if case.get('other') is None else case['other']['src']}:abs={case['abs']}"
 
